@@ -243,87 +243,101 @@ func c01DoTest(res *hlib.Result, t c01Test, base []byte, bad map[string][]byte) 
 		}
 	}
 	for _, kind := range kinds {
-		res.Evaluations++
-		var stream []byte
-		var msgs []net.Message
-		for i, pl := range t.Ps {
-			h := net.NewHeader(net.Call, 1, 1, 0x01020304, 0x01020304)
-			m := net.NewMessage(h, c01Payload(i, pl))
-			msgs = append(msgs, m)
-			var buf bytes.Buffer
-			if err := m.Write(&buf); err != nil {
-				res.Fail("framing/write-error", err.Error(), t)
+		// every behaviour twice: a fresh Message per read, and ONE Message value read into again and again
+		// (what it held before must not matter: reading is a function of the bytes)
+		for _, reuse := range []bool{false, true} {
+			res.Evaluations++
+			var stream []byte
+			var msgs []net.Message
+			for i, pl := range t.Ps {
+				h := net.NewHeader(net.Call, 1, 1, 0x01020304, 0x01020304)
+				m := net.NewMessage(h, c01Payload(i, pl))
+				msgs = append(msgs, m)
+				var buf bytes.Buffer
+				if err := m.Write(&buf); err != nil {
+					res.Fail("framing/write-error", err.Error(), t)
+					return
+				}
+				stream = append(stream, buf.Bytes()...)
+			}
+			if kind != "none" {
+				stream = append(stream, bad[kind]...)
+				stream = append(stream, 0xAA, 0xBB, 0xCC)
+			}
+			if t.Cut > len(stream) {
+				res.Fail("framing/stream-length", fmt.Sprintf("stream is %d bytes, specification says >= %d", len(stream), t.Cut), t)
 				return
 			}
-			stream = append(stream, buf.Bytes()...)
-		}
-		if kind != "none" {
-			stream = append(stream, bad[kind]...)
-			stream = append(stream, 0xAA, 0xBB, 0xCC)
-		}
-		if t.Cut > len(stream) {
-			res.Fail("framing/stream-length", fmt.Sprintf("stream is %d bytes, specification says >= %d", len(stream), t.Cut), t)
-			return
-		}
-		stream = stream[:t.Cut]
-		script := make([][]int, len(t.Chunks))
-		copy(script, t.Chunks)
-		r := &scriptReader{data: stream, script: script}
-		cse := map[string]interface{}{"ps": t.Ps, "bad": kind, "cut": t.Cut, "chunks": t.Chunks, "exp": t.Exp}
-		decoded := 0
-		final := ""
-		for {
-			var m net.Message
-			err := m.Read(r)
-			if err == nil {
-				if decoded >= len(msgs) {
-					res.Fail("framing/extra-message", fmt.Sprintf("decoded a message that was never written: %+v", m.Header), cse)
-					final = "extra"
-					break
+			stream = stream[:t.Cut]
+			script := make([][]int, len(t.Chunks))
+			copy(script, t.Chunks)
+			r := &scriptReader{data: stream, script: script}
+			cse := map[string]interface{}{"ps": t.Ps, "bad": kind, "cut": t.Cut, "chunks": t.Chunks, "exp": t.Exp, "reused_message": reuse}
+			decoded := 0
+			final := ""
+			var shared net.Message
+			if reuse {
+				// the recycled value starts with a payload longer than anything in the stream
+				shared.Payload = bytes.Repeat([]byte{0xEE}, 64)
+			}
+			for {
+				var fresh net.Message
+				mp := &fresh
+				if reuse {
+					mp = &shared
 				}
-				w := msgs[decoded]
-				if m.Header != w.Header || !bytes.Equal(m.Payload, w.Payload) {
-					res.Fail("framing/lossy", fmt.Sprintf("message %d read back different: %+v", decoded, m.Header), cse)
+				err := mp.Read(r)
+				m := *mp
+				if err == nil {
+					if decoded >= len(msgs) {
+						res.Fail("framing/extra-message", fmt.Sprintf("decoded a message that was never written: %+v", m.Header), cse)
+						final = "extra"
+						break
+					}
+					w := msgs[decoded]
+					if m.Header != w.Header || !bytes.Equal(m.Payload, w.Payload) {
+						res.Fail("framing/lossy", fmt.Sprintf("message %d read back different: %+v", decoded, m.Header), cse)
+					}
+					decoded++
+					if decoded <= len(t.Exp.Ends) && r.pos != t.Exp.Ends[decoded-1] {
+						res.Fail("framing/consumed", fmt.Sprintf("after message %d the reader consumed %d bytes, expected %d", decoded, r.pos, t.Exp.Ends[decoded-1]), cse)
+					}
+					continue
 				}
-				decoded++
-				if decoded <= len(t.Exp.Ends) && r.pos != t.Exp.Ends[decoded-1] {
-					res.Fail("framing/consumed", fmt.Sprintf("after message %d the reader consumed %d bytes, expected %d", decoded, r.pos, t.Exp.Ends[decoded-1]), cse)
+				if err == io.EOF {
+					final = "eof"
+				} else {
+					final = "error"
 				}
+				break
+			}
+			if final == "extra" {
 				continue
 			}
-			if err == io.EOF {
-				final = "eof"
-			} else {
-				final = "error"
+			if decoded != t.Exp.Decoded {
+				res.Fail("framing/decoded-count", fmt.Sprintf("decoded %d messages, expected %d (final %s)", decoded, t.Exp.Decoded, final), cse)
+				continue
 			}
-			break
-		}
-		if final == "extra" {
-			continue
-		}
-		if decoded != t.Exp.Decoded {
-			res.Fail("framing/decoded-count", fmt.Sprintf("decoded %d messages, expected %d (final %s)", decoded, t.Exp.Decoded, final), cse)
-			continue
-		}
-		switch t.Exp.Final {
-		case "eof":
-			if final != "eof" {
-				res.Fail("framing/clean-eof", "end of stream at a message boundary must be reported as io.EOF, got an error", cse)
+			switch t.Exp.Final {
+			case "eof":
+				if final != "eof" {
+					res.Fail("framing/clean-eof", "end of stream at a message boundary must be reported as io.EOF, got an error", cse)
+				}
+			case "trunc":
+				if final != "error" {
+					res.Fail("framing/truncated-accepted", "truncated stream reported as clean end of stream", cse)
+				}
+			case "reject":
+				if final != "error" {
+					res.Fail("framing/bad-header-accepted", "defective header ("+kind+") not refused", cse)
+				}
 			}
-		case "trunc":
-			if final != "error" {
-				res.Fail("framing/truncated-accepted", "truncated stream reported as clean end of stream", cse)
+			if r.pos > t.Exp.Maxpos {
+				res.Fail("framing/overread", fmt.Sprintf("consumed %d bytes, at most %d allowed (defective header must be refused before the payload)", r.pos, t.Exp.Maxpos), cse)
 			}
-		case "reject":
-			if final != "error" {
-				res.Fail("framing/bad-header-accepted", "defective header ("+kind+") not refused", cse)
+			if (kind == "none" || kind == "oversize") && len(t.Chunks) > 3 {
+				res.Sample(fmt.Sprint(cse))
 			}
-		}
-		if r.pos > t.Exp.Maxpos {
-			res.Fail("framing/overread", fmt.Sprintf("consumed %d bytes, at most %d allowed (defective header must be refused before the payload)", r.pos, t.Exp.Maxpos), cse)
-		}
-		if (kind == "none" || kind == "oversize") && len(t.Chunks) > 3 {
-			res.Sample(fmt.Sprint(cse))
 		}
 	}
 }
